@@ -125,6 +125,9 @@ pub struct Case {
     /// hyper-parameters govern its recurrence - that is what `update` and `predict` use.
     #[serde(default)]
     pub decoy_params: bool,
+    /// naive Bayes: the first model is produced by the one-shot `fit`, later batches by `fit_with`
+    #[serde(default)]
+    pub first_by_fit: bool,
     /// number of rows in one `predict` call (0 = the default dozen); above a thousand the
     /// call spans any internal block size
     #[serde(default)]
@@ -626,7 +629,13 @@ impl<F: Fl> Sut for NbSut<F> {
             ($params:expr, $labels:expr, $prev:expr, $wrap:path) => {{
                 let ds = DatasetBase::new(x, Array1::from($labels));
                 let params = $params.check().map_err(|e| e.to_string())?;
-                params.fit_with($prev, &ds).map_err(|e| e.to_string())?.map($wrap)
+                let prev = $prev;
+                if prev.is_none() && c.first_by_fit {
+                    // the first model comes from the one-shot `fit` and is then continued incrementally
+                    Some($wrap(params.fit(&ds).map_err(|e| e.to_string())?))
+                } else {
+                    params.fit_with(prev, &ds).map_err(|e| e.to_string())?.map($wrap)
+                }
             }};
         }
         let yu: Vec<usize> = d.y[a..b].to_vec();
@@ -1496,6 +1505,7 @@ pub fn gen_case(r: &mut Prng, learner: Learner, big: bool) -> Case {
         },
         fractional: learner == Learner::Mnb && r.chance(0.3),
         decoy_params: learner == Learner::Ftrl && r.chance(0.25),
+        first_by_fit: matches!(learner, Learner::Gnb | Learner::Mnb) && r.chance(0.25),
         nq: if r.chance(0.08) { r.usize_in(1025, 2300) } else { 0 },
     }
     .with_precision(r, learner)
